@@ -140,6 +140,12 @@ def run(ck: Check):
                 dom = ["s1", "s2", "s3"] if b in ("sku", "dept") else ["a", "b", "c"]
                 q["filters"].append(rng.choice([E.bin_("eq", E.col(f"{a}.{b}"), E.lit(rng.choice(dom))), E.in_(E.col(f"{a}.{b}"), rng.sample(dom, 2)),
                                                 E.bin_("ne", E.col(f"{a}.{b}"), E.lit(rng.choice(dom))), E.isnull(E.col(f"{a}.{b}"), neg=True)]))
+            if rng.random() < 0.4:
+                # a metric-value filter: must be applied after aggregation whichever models the query joins
+                ref = rng.choice(q["metrics"])
+                if ref.split(".")[1].split("_")[0] in ("sum", "count", "min", "max", "n"):
+                    q["filters"].append(E.bin_(rng.choice(["gt", "ge", "lt"]), E.col(ref), E.lit(rng.choice([0, 1, 5, 10]))))
+                    rng.shuffle(q["filters"])
             r = M.run_real(layer, q)
             jreals.append(r)
             c = {"op": "c02", "models": M.lean_models(ms), "query": q, "tables": tables, "_ms": ms, "_meta": dict(M.GEN_META)}
